@@ -26,7 +26,7 @@ ASSUMPTIONS = [
 ]
 BOUNDS = {"quick": "2 and 3 streams, K = 4 samples per stream, 4 delivery modes", "thorough": "4 streams, K = 5, offsets in [0, 3]"}
 OUTSIDE = "receiver overflow (capacity 50 never reached); FormulaEngine3Phase; more streams"
-BUDGET = {"quick": 300, "thorough": 1800}
+BUDGET = {"quick": 300, "thorough": 600}
 PER = timedelta(seconds=1)
 
 
